@@ -30,7 +30,7 @@ DOC_NOTE = ("Trusted: Coq kernel + vm_compute; the generator (a separate main pa
             "time formatting (compared per case).")
 
 NOT_APPLICABLE = []
-HOOK_COMMITS = ["339701f", "1083a8c"]
+HOOK_COMMITS = ["339701f", "1083a8c", "950999e"]
 
 
 PROPS = {
